@@ -1517,7 +1517,7 @@ where
 
     /// Handles GRAFT control messages. If subscribed to the topic, adds the peer to mesh, if not,
     /// responds with PRUNE messages.
-    fn handle_graft(&mut self, peer_id: &PeerId, topics: Vec<TopicHash>) {
+    fn handle_graft(&mut self, peer_id: &PeerId, mut topics: Vec<TopicHash>) {
         tracing::debug!(peer=%peer_id, "Handling GRAFT message for peer");
 
         let mut to_prune_topics = HashSet::new();
@@ -1531,13 +1531,44 @@ where
 
         // For each topic, if a peer has grafted us, then we necessarily must be in their mesh
         // and they must be subscribed to the topic. Ensure we have recorded the mapping.
+        // The implied subscription is subject to the subscription filter like an explicit one.
         for topic in &topics {
+            if connected_peer.topics.contains(topic) {
+                continue;
+            }
+            let subscription = Subscription {
+                action: SubscriptionAction::Subscribe,
+                topic_hash: topic.clone(),
+                options: Default::default(),
+            };
+            let allowed = self
+                .subscription_filter
+                .filter_incoming_subscriptions(
+                    std::slice::from_ref(&subscription),
+                    &connected_peer.topics,
+                )
+                .is_ok_and(|filtered| !filtered.is_empty());
+            if !allowed {
+                tracing::debug!(
+                    peer=%peer_id,
+                    topic=%topic,
+                    "GRAFT: ignoring graft for topic rejected by the subscription filter"
+                );
+                continue;
+            }
             if connected_peer.topics.insert(topic.clone()) {
                 #[cfg(feature = "metrics")]
                 if let Some(m) = self.metrics.as_mut() {
                     m.inc_topic_peers(topic);
                 }
             }
+        }
+        // Only topics the peer is recorded as subscribed to can be grafted.
+        let grafted_topics = topics.len();
+        topics.retain(|topic| connected_peer.topics.contains(topic));
+        if topics.len() != grafted_topics {
+            // as for unknown topics: no PX
+            do_px = false;
         }
 
         // we don't GRAFT to/from explicit peers; complain loudly if this happens
